@@ -173,6 +173,9 @@ func genC16(x *Ctx) *c16Scen {
 					r.Size = 12000000
 				}
 			}
+			if tp.Chance(4) {
+				r.Size = 1000001 // marker: a small entity plus two megabytes of one character (see runC16)
+			}
 			r.Seed = tp.G(1 << 20)
 			r.BChunks = chunkPlan(tp, tp.Range(1, 3), 97)
 			if r.Coding == "gzip" && tp.Chance(120) {
@@ -220,10 +223,12 @@ func runC16(x *Ctx) {
 		for _, r := range cl {
 			byID[r.ID] = r
 			all = append(all, r)
-			r.value = c16Value(r.Seed, r.Size, r.Codec)
-			if r.Size >= 1000000 && r.Seed%2 == 0 {
+			if r.Size == 1000001 {
 				// a legal but very repetitive entity: megabytes that compress a thousandfold
+				r.value = c16Value(r.Seed, 24, r.Codec)
 				r.value.S = strings.Repeat("\u00e9", 1<<20)
+			} else {
+				r.value = c16Value(r.Seed, r.Size, r.Codec)
 			}
 		}
 	}
